@@ -275,7 +275,8 @@ def value_of(g, stmt_or_expr, frame, depth=0):
     ex = stmt_or_expr
     if depth > 4 or not isinstance(ex, _ast.Call):
         return ex, frame
-    kids = [c for c in getattr(frame, 'children', ()) if c.call is ex]
+    kids = [c for c in getattr(frame, 'children', ())
+            if c.call is ex or getattr(c.call, '_orig', None) is ex]
     if len(kids) != 1:
         return ex, frame
     callee = kids[0]
@@ -293,7 +294,8 @@ def values_of(g, ex, frame, depth=0):
     import ast as _ast
     if depth > 4 or not isinstance(ex, _ast.Call):
         return [(ex, frame)]
-    kids = [c for c in getattr(frame, 'children', ()) if c.call is ex]
+    kids = [c for c in getattr(frame, 'children', ())
+            if c.call is ex or getattr(c.call, '_orig', None) is ex]
     if len(kids) != 1:
         return [(ex, frame)]
     callee = kids[0]
@@ -554,3 +556,15 @@ def covering_timeout(e, n):
             return 'decorator running %s under Timeout(%s)' % (
                 fr.ctx.func.name, x)
     return None
+
+
+def deref(expr, frame, depth=0):
+    """(expression, frame) a plain parameter name stands for: the argument
+    it was bound to when its function was inlined (followed upwards)."""
+    import ast as _ast
+    while depth < 6 and isinstance(expr, _ast.Name) and \
+            expr.id in getattr(frame, 'bindings', {}) and \
+            expr.id in frame.ctx.func.params:
+        expr, frame = frame.bindings[expr.id]
+        depth += 1
+    return expr, frame
